@@ -385,6 +385,9 @@ def o_perm(case):
     sigma = list(case['perm'])
     c2 = dict(case)
     c2['g'] = [case['g'][i] for i in sigma]
+    if (case.get('variant') or {}).get('elems'):
+        c2['variant'] = dict(case['variant'])
+        c2['variant']['elems'] = [case['variant']['elems'][i] for i in sigma]
     p2, mu2 = run_impl(c2)
     tol = rtol_of(case) * scale_of(case, mu)
     cls = 'perm:ties' if has_ties(case) else 'perm:distinct'
